@@ -156,12 +156,23 @@ def _split_facts(f, plist):
     return None
 
 
-def drive(ctx, bins, progs, taint=(), backtrace=(), nproc=None, timeout=900, pointer=(), escape=()):
+def drive(ctx, bins, progs, taint=(), backtrace=(), nproc=None, timeout=300, pointer=(), escape=(), iso_timeout=90):
     """run the real analyses (semdrive) module by module (parallel); a module whose run fails is re-run program by
-    program so that one crashing program does not take the facts of the others with it.  Sets p.facts / p.absent."""
+    program (in parallel, short timeout) so that one crashing or diverging program does not take the facts of the
+    others with it.  Sets p.facts / p.absent.  Divergence of an analysis is C07's subject: here it only makes the
+    facts of that one program absent, and the time spent on it is bounded (timeout + iso_timeout)."""
     mods = {}
     for p in progs:
         mods.setdefault(p.mod, []).append(p)
+
+    def iso(p):
+        f, err1 = _semdrive(bins, p.mod, "./" + p.name, taint, backtrace, os.path.join(p.dir, "facts.json"), iso_timeout,
+                            pointer, escape)
+        if f is not None:
+            err1 = _split_facts(f, [p])
+        if err1 is not None:
+            p.facts = None
+            p.absent = err1
 
     def one(mod):
         plist = mods[mod]
@@ -170,13 +181,7 @@ def drive(ctx, bins, progs, taint=(), backtrace=(), nproc=None, timeout=900, poi
             err = _split_facts(f, plist)
         if err is None:
             return
-        for p in plist:   # isolate
-            f, err1 = _semdrive(bins, mod, "./" + p.name, taint, backtrace, os.path.join(p.dir, "facts.json"), timeout, pointer, escape)
-            if f is not None:
-                err1 = _split_facts(f, [p])
-            if err1 is not None:
-                p.facts = None
-                p.absent = err1
+        vlib.pmap(iso, plist, nproc=6)
     vlib.pmap(one, sorted(mods), nproc=nproc or vlib.NCPU)
 
 
@@ -339,7 +344,24 @@ def pred_closure_from_inner_closure(chain):
     return False
 
 
+INTERPROC_FAMS = {"call", "iface", "closure", "defer", "global"}
+
+
+def pred_container_then_interproc(chain):
+    """a value that went through a container element (map entry, slice/array element: access path [*]) later crosses a
+    function boundary (call, method, closure, deferred call) or is decorated into a helper / closure"""
+    seen = False
+    for s_, d in chain:
+        fam = semgen.STEPS[s_][2]
+        if seen and (fam in INTERPROC_FAMS or d in ("helper", "iife")):
+            return True
+        if fam == "container":
+            seen = True
+    return False
+
+
 KNOWN_PREDS = {"clo_ret_then_capture": pred_clo_ret_then_capture,
+               "container_then_interproc": pred_container_then_interproc,
                "closure_from_inner_closure": pred_closure_from_inner_closure,
                "validator_guard_else_arm": pred_validator_guard_else_arm}
 
@@ -564,10 +586,10 @@ def calls_check(ctx, whats, prop_text):
     for p in nat:
         if not isinstance(p.native, list):
             raise Inconclusive("native build/run failed for %s: %s" % (p.dir, p.native))
-        nat = {e["a"] for r in p.native for e in r["events"] if e["e"] == "enter"}
+        natf = {e["a"] for r in p.native for e in r["events"] if e["e"] == "enter"}
         pred = {p.flat["decl"][t["ev"]["s"]] for t in truth if t["prog"] is p and t["ev"]["e"] in ("call", "go")}
-        if nat != pred:
-            bad.append((p, sorted(pred - nat), sorted(nat - pred)))
+        if natf != pred:
+            bad.append((p, sorted(pred - natf), sorted(natf - pred)))
     if bad:
         p, a, b = bad[0]
         raise Inconclusive("MODEL-MISMATCH: executed functions differ on %d programs, e.g. chain %s: only model %s, "
